@@ -314,8 +314,9 @@ def gen_seq(rng, maxlen):
             budget -= 1
         ops.append(o)
         apply_sim(sim, o)
-        if sim.broken or o.get('copy'):
-            break
+        if o.get('copy') or (sim.broken and resample_variant() == 1):
+            break       # current code: the object is damaged from here on (known finding), nothing more to compare
+        sim.broken = False
     return {'op': 'seq', 'w': fs(w), 'v': fs(v), 'ops': ops}
 
 
@@ -445,10 +446,28 @@ RULES = {'trapz': 0, 'simps': 1}
 ENDS = {'symmetric': 0, 'inside': 1}
 
 
+_VARIANT = {}
+
+
+def resample_variant():
+    """which of the two modelled resample variants the tree under test carries: observed once per run by a single
+    probe on the implementation (1 = current code: values replaced before the grid is validated, 6 = with
+    proposed_fixes/c15-resample-validate-first.patch). Every sequence is then compared with that variant only."""
+    if 'v' not in _VARIANT:
+        lentil = C.import_lentil()
+        s = lentil.radiometry.Spectrum(np.array([1., 2., 4.]), np.array([1., 3., 7.]))
+        try:
+            s.resample(np.array([3., 2., 1., 0.5]))
+        except Exception:
+            pass
+        _VARIANT['v'] = 6 if (s.value.tolist() == [1., 3., 7.] and s.wave.tolist() == [1., 2., 4.]) else 1
+    return _VARIANT['v']
+
+
 def encode(c):
     op = c['op']
     if op == 'seq':
-        return [1] + enc_lq(c['w']) + enc_lq(c['v']) + [len(c['ops'])] + sum((enc_op(o) for o in c['ops']), [])
+        return [resample_variant()] + enc_lq(c['w']) + enc_lq(c['v']) + [len(c['ops'])] + sum((enc_op(o) for o in c['ops']), [])
     sp = enc_lq(c['w']) + enc_lq(c['v'])
     if op == 'integrate':
         q = lambda x: C.enc_opt(None if x is None else F(x), C.enc_q)
@@ -967,6 +986,11 @@ def known_match(f, c, impl):
             return truncated(w, min(cs), max(cs)) and close(sum(impl['bins']), o_trapz(sw, sv), 1e-10)
         return False
     return False
+
+
+def extra(tier, rng):
+    return {'report': {'resample_variant_under_test': 'current (values assigned before the grid is validated)'
+                       if resample_variant() == 1 else 'fixed (grid validated first)'}, 'violations': []}
 
 
 def replay_known(f):
